@@ -53,6 +53,7 @@ def run(chk):
     finally:
         BM.CONFIG['symbolic_ops'] = False
         it.arith_feasibility = False
+    builtins_kernel(chk, it)
     # backing also needs that what a withdrawal burns are tokens that exist: the withdrawal selector only passes requests
     # whose (single) output is an unspent coin of the pool's liquidity-token denomination
     from props import c15
@@ -188,6 +189,83 @@ def withdraw_kernel(chk, it):
         chk.cover_int('partial withdrawal with non-zero payout/' + name, list(s.pc) + [z3.ULT(w, LQ), z3.UGT(lo, 5), z3.UGT(ro, 5)])
     if not n:
         raise Inconclusive('withdraw has no returning path')
+
+
+def builtins_kernel(chk, it):
+    """create_builtins (first phase of every seal) from an arbitrary pools tree: afterwards MEL/SYM and MEL/ERG -- and ERG/SYM once
+    TIP-902 is active -- are present; a pool that was missing starts with 10^9 / 10^9 reserves and 10^9 liquidity owned by nobody;
+    a pool that existed is left as it was.  With the PoolState lemmas above (reserves stay >= 1 under swaps and partial
+    withdrawals, and nobody holds the initial 10^9 liquidity) this is the existence-with-reserves claim, by induction over blocks."""
+    from props import c15, c01
+    G.reset()
+    st = State()
+    state, sterms = B.sym_state(st.pc)
+    st.pc.append(z3.ULE(sterms['height'], 100_000_000))
+    pools0 = state.fields[9].fields[0].data
+    keys = {'MEL/SYM': c01._poolkey('Mel', 'Sym'), 'MEL/ERG': c01._poolkey('Erg', 'Mel'), 'ERG/SYM': c01._poolkey('Erg', 'Sym')}
+    before = dict((n, c15.pool_entry(it, st, pools0, k)) for n, k in keys.items())
+    added = [(re.compile(r'PoolKey::new$'), c01.poolkey_new_override)]
+    it.overrides = added + list(it.overrides)
+    fn = it.by_last['create_builtins'][0]
+    try:
+        outs = it.exec_fn(st, fn, [state])
+    finally:
+        it.overrides = [o for o in it.overrides if o not in added]
+    netd, h = sterms['network'], sterms['height']
+    inputs = {'network': netd, 'height': h}
+    for n, e in before.items():
+        inputs['had_' + n.replace('/', '_')] = z3.If(e.data.present, bv(1, 8), bv(0, 8))
+    k = 0
+    for idx, (s, o) in enumerate(outs):
+        if isinstance(o, Panic):
+            chk.obligation('PANIC/create_builtins/%d' % idx, list(s.pc), z3.BoolVal(False), inputs, replay=lambda mo: replay_builtins(chk, mo, inputs),
+                           kind='PANIC', describe=str(o))
+            continue
+        k += 1
+        post = o.v
+        tree1 = post.fields[9].fields[0].data
+        name = 'create_builtins/%d' % idx
+        for n, key in keys.items():
+            e0, e1 = before[n], c15.pool_entry(it, s, tree1, key)
+            fresh = z3.And([e1.data.value.fields[i] == 10 ** 9 for i in (0, 1, 3)])
+            kept = val_eq(e1.data.value, e0.data.value)
+            if n == 'ERG/SYM':
+                # TIP-902: mainnet from its activation height, testnet from 500, custom networks always -- read off tip_condition
+                claim = z3.And(z3.Implies(e0.data.present, z3.And(e1.data.present, kept)),
+                               z3.Implies(z3.And(z3.Not(e0.data.present), e1.data.present), fresh))
+                chk.obligation('FUNC/ERG-SYM-pool-kept-or-created-fresh/' + name, list(s.pc), claim, inputs,
+                               replay=lambda mo: replay_builtins(chk, mo, inputs))
+                chk.obligation('FUNC/ERG-SYM-pool-exists-on-custom-networks/' + name, list(s.pc) + [netd != 0xff, netd != 0x01], e1.data.present,
+                               inputs, replay=lambda mo: replay_builtins(chk, mo, inputs), bound='every TIP is active on custom networks')
+            else:
+                claim = z3.And(e1.data.present, z3.If(e0.data.present, kept, fresh))
+                chk.obligation('FUNC/%s-pool-exists-after-create_builtins/%s' % (n.replace('/', '-'), name), list(s.pc), claim, inputs,
+                               replay=lambda mo: replay_builtins(chk, mo, inputs), bound='kept if it existed, else 10^9 / 10^9 / liqs 10^9')
+    if not k:
+        raise Inconclusive('create_builtins has no returning path')
+
+
+def replay_builtins(chk, model, inputs):
+    """empty blocks sealed on Custom02, Testnet and Mainnet from a genesis without pools: the built-in pools must exist with
+    non-zero reserves after every seal"""
+    for net, height in ((2, 0), (2, 7), (1, 3), (0xff, 3)):
+        sc = {'kind': 'batch', 'network': net, 'height': height, 'fee_pool': '0', 'tips': '0', 'fee_multiplier': '0', 'dosc_speed': '1000000',
+              'coins': [], 'txs': [], 'probes': [], 'melmint_only': 'create_builtins', 'seal': None}
+        out = harness.run_replay([sc], 'dev')[0]
+        if 'error' in out or 'unrealizable' in out:
+            raise Inconclusive('replay: %s' % out)
+        run = out['runs'][0]
+        for stage in ('melmint', 'seal'):
+            o = run.get(stage, {})
+            if o.get('panicked'):
+                return True, sc, {'stage': stage, 'panic': o.get('msg', '')[-160:]}
+            bp = o.get('builtin_pools', {})
+            need = ['MEL/SYM', 'MEL/ERG'] + (['ERG/SYM'] if net == 2 else [])
+            for n in need:
+                p = bp.get(n)
+                if not p or int(p['lefts']) == 0 or int(p['rights']) == 0:
+                    return True, sc, {'stage': stage, 'network': net, 'missing_or_empty': n, 'pools': bp}
+    return False, sc, {'all_present': True}
 
 
 def backing_kernel(chk, it):
